@@ -44,6 +44,7 @@ pub struct CNode {
     pub snap_tx: watch::Sender<nv::NodeMembership>,
     pub _server: Server,
     pub up: bool,
+    pub alive: Arc<std::sync::atomic::AtomicBool>,
 }
 
 impl CNode {
@@ -73,8 +74,9 @@ pub async fn start_node(id: u8, addr: SocketAddr, dc: &str, inner: Arc<MemStore>
     let _ = store_first;
     let handle = nv::new_handle(me, clock, network, selector, stats, changes);
     let st = HStore::new(inner.clone(), ctl.clone());
+    let alive = st.alive.clone();
     let store = ecv::create_store(st, repair_interval, handle, &server).await.expect("create store");
-    CNode { id, addr, dc: dc.to_string(), ctl, inner, store: Some(store), snap_tx, _server: server, up: true }
+    CNode { id, addr, dc: dc.to_string(), ctl, inner, store: Some(store), snap_tx, _server: server, up: true, alive }
 }
 
 #[derive(Default)]
@@ -430,6 +432,8 @@ pub async fn convergence_scenario(seed: u64, scen: u64, cfg: &ScenarioCfg, tag: 
                 *c.epoch.entry(addr).or_insert(0) += 1;
             }
             cluster.nodes[idx].up = false;
+            // from here on nothing the old incarnation still has scheduled can write to the storage
+            cluster.nodes[idx].alive.store(false, Ordering::SeqCst);
             cluster.nodes[idx].store = None; // drops the store: services are told to stop
             cluster.publish_membership();
             tokio::time::sleep(Duration::from_millis(rng.gen_range(0..2500))).await;
@@ -557,7 +561,24 @@ pub async fn convergence_scenario(seed: u64, scen: u64, cfg: &ScenarioCfg, tag: 
                 let what = if others_agree { "all-nodes-agree-but-not-on-the-last-writer" } else { "nodes-return-different-documents" };
                 let lost_delete = got.keys().any(|k| !expect.contains_key(k));
                 let class = if lost_delete { "deleted-document-still-live" } else if expect.keys().any(|k| !got.contains_key(k)) { "live-document-missing" } else { "stale-or-wrong-version" };
-                res.read_divergence = Some((format!("{what}:{class}"), json!({"node": id, "reads": show(got), "last_writer_wins": show(&expect), "all_nodes": states.iter().map(|(i, g)| json!({"node": i, "reads": show(g)})).collect::<Vec<_>>()})));
+                // diagnostics: every storage write (in per-node log order) for the keys that differ
+                let differing: BTreeSet<(String, Key)> = got.iter().filter(|(k, v)| expect.get(*k) != Some(*v)).map(|(k, _)| k.clone()).chain(expect.iter().filter(|(k, v)| got.get(*k) != Some(*v)).map(|(k, _)| k.clone())).collect();
+                let mut log_dump = Vec::new();
+                for nd in &cluster.nodes {
+                    let l = nd.ctl.log.lock();
+                    let entries: Vec<Value> = l.iter().filter(|w| differing.contains(&(w.keyspace.clone(), w.id))).map(|w| json!([w.keyspace, w.id, ts_json(w.ts), if w.data.is_some() { "put" } else { "del" }])).collect();
+                    log_dump.push(json!({"node": nd.id, "up": nd.up, "writes_in_order": entries}));
+                }
+                let mut sets = Vec::new();
+                for nd in cluster.nodes.iter().filter(|n| n.up) {
+                    for ks in &ksn {
+                        let ksm = nd.group().get_or_create_keyspace(ks).await;
+                        if let Ok(set) = set_of(&ksm).await {
+                            sets.push(json!({"node": nd.id, "keyspace": ks, "set": listing_json(&enumerate(&set))}));
+                        }
+                    }
+                }
+                res.read_divergence = Some((format!("{what}:{class}"), json!({"node": id, "reads": show(got), "last_writer_wins": show(&expect), "all_nodes": states.iter().map(|(i, g)| json!({"node": i, "reads": show(g)})).collect::<Vec<_>>(), "writes_for_differing_keys": log_dump, "sets": sets})));
                 break;
             }
         }
@@ -1082,8 +1103,10 @@ async fn c16_e2e_case(seed: u64, scen: u64, joins_before_store: bool) -> CaseOut
         let handle = nv::new_handle(me1, clock, network, selector, stats, changes);
         let ctl = Ctl::new(1);
         let inner = Arc::new(MemStore::default());
-        let store = ecv::create_store(HStore::new(inner.clone(), ctl.clone()), repair, handle, &server).await.expect("store");
-        node1 = CNode { id: 1, addr: addr1, dc: "dc".into(), ctl, inner, store: Some(store), snap_tx, _server: server, up: true };
+        let hs = HStore::new(inner.clone(), ctl.clone());
+        let alive = hs.alive.clone();
+        let store = ecv::create_store(hs, repair, handle, &server).await.expect("store");
+        node1 = CNode { id: 1, addr: addr1, dc: "dc".into(), ctl, inner, store: Some(store), snap_tx, _server: server, up: true, alive };
     } else {
         node1 = start_node(1, addr1, "dc", Arc::new(MemStore::default()), Ctl::new(1), repair, true, None).await;
         tokio::time::sleep(Duration::from_millis(10)).await;
